@@ -224,7 +224,15 @@ func c10Exec(r *vf.Run, k c10Case) []finding {
 	if len(gl) != len(leaves) {
 		add(fmt.Sprintf("rerender/leaf-count/want=%d/got=%d/%s", len(leaves), len(gl), scls), "re-rendered message has %d leaves (%s), the original %d (%s)", len(gl), e2.Shape(), len(leaves), shape)
 	} else {
-		if e2.Shape() != shape {
+		// the media type of a file is not among the attributes the property lists (name, bytes, kind): where the
+		// builder overrode it, only the nesting and the body parts' types are compared
+		ctOverride := false
+		for _, f := range append(append([]mb.File{}, spec.Attach...), spec.Embeds...) {
+			if f.CT != "" {
+				ctOverride = true
+			}
+		}
+		if e2.Shape() != shape && !(ctOverride && shapeClass(e2.Shape()) == shapeClass(shape)) {
 			add("rerender/nesting/"+scls, "re-rendered nesting %s, original %s", e2.Shape(), shape)
 		}
 		for i, w := range leaves {
@@ -364,6 +372,42 @@ func c10Specs(thorough bool) []c10Case {
 			}
 		}
 	}
+	// file options: every combination of Content-ID / description / explicit media type on an attachment and on an
+	// embed, alone and next to other files, in every message encoding
+	for _, menc := range encs {
+		for opt := 1; opt < 8; opt++ {
+			for kind := 0; kind < 4; kind++ {
+				f := mb.File{Name: names[(opt+kind)%6], Content: bins[opt%2]}
+				if opt&1 != 0 {
+					f.CID = fmt.Sprintf("file-%d@harness.example", opt)
+				}
+				if opt&2 != 0 {
+					f.Desc = "a described file"
+				}
+				if opt&4 != 0 {
+					f.CT = "application/pdf"
+				}
+				s := mb.Msg{Enc: menc, Parts: []mb.Part{{Type: "text/plain", Content: texts[0]}}}
+				switch kind {
+				case 0:
+					s.Attach = []mb.File{f}
+				case 1:
+					s.Embeds = []mb.File{f}
+				case 2:
+					s.Parts = append(s.Parts, mb.Part{Type: "text/html", Content: htmls[0]})
+					s.Attach = []mb.File{{Name: "first.txt", Content: bins[0]}, f}
+					s.Embeds = []mb.File{{Name: "logo.png", Content: bins[1], CID: "logo@harness.example"}}
+				default:
+					s.Parts = append(s.Parts, mb.Part{Type: "text/html", Content: htmls[0]})
+					s.Attach = []mb.File{{Name: "first.txt", Content: bins[0], CID: "att@harness.example"}}
+					s.Embeds = []mb.File{f, {Name: "logo.png", Content: bins[1]}}
+				}
+				sub := subjects[0]
+				s.Subject = &sub
+				cs = append(cs, c10Case{Spec: s})
+			}
+		}
+	}
 	// every subject × display name combination on the alternative+attachment shape
 	for si := range subjects {
 		for di := range dnames {
@@ -382,7 +426,7 @@ func init() {
 	vf.Register(&vf.Check{
 		ID: "C10", Title: "render → parse → render preserves the message",
 		Run: func(r *vf.Run) {
-			r.SetRule("builder programs inside the parser's feature set: body text/plain with optional text/html alternative × 0..2 attachments × 0..2 embeds × message encoding {QP, base64, 8bit, 7bit} × per-part encodings × 6 text contents ('=', dots, UTF-8, long lines, LF-only, no final newline) plus every body part empty / one byte / a bare line break in every structure × 4 file contents × 6 file names (blank, non-ASCII, ';', '=') × 5 subjects × 5 display names (RFC 2047, comma, 80 chars); each is rendered, the rendering is checked with the independent reader (precondition), parsed with EMLToMsgFromReader, compared with the model through the Msg getters, rendered again and compared again through the independent reader; distinct by program")
+			r.SetRule("builder programs inside the parser's feature set: body text/plain with optional text/html alternative × 0..2 attachments × 0..2 embeds × message encoding {QP, base64, 8bit, 7bit} × per-part encodings × 6 text contents ('=', dots, UTF-8, long lines, LF-only, no final newline) plus every body part empty / one byte / a bare line break in every structure × 4 file contents × 6 file names (blank, non-ASCII, ';', '=') × every combination of Content-ID / description / media-type option on attachments and embeds × 5 subjects × 5 display names (RFC 2047, comma, 80 chars); each is rendered, the rendering is checked with the independent reader (precondition), parsed with EMLToMsgFromReader, compared with the model through the Msg getters, rendered again and compared again through the independent reader; distinct by program")
 			r.Assume("messages whose first rendering is already wrong are C01's business and skipped here", "the parser may choose other transfer encodings on re-rendering; contents are compared decoded (QP text modulo LF->CRLF)")
 			cases := c10Specs(r.Thorough)
 			r.Extra("programs", len(cases))
